@@ -38,6 +38,7 @@ class Contract:
         self.ensures = kw.pop("ensures", {})      # label -> clause
         self.lets = kw.pop("lets", {})            # name -> clause (evaluated in post state, in order)
         self.raises = kw.pop("raises", {})        # ExcName -> clause|None  (may raise only if clause)
+        self.records = kw.pop("records", ())      # repo classes whose instances this function creates as immutable record values
         self.at_yield = kw.pop("at_yield", {})      # label -> clause: must hold where a context manager hands control to the with-body
         self.ensures_exc = kw.pop("ensures_exc", {})  # label -> clause, must hold on exceptional exit
         self.loops = kw.pop("loops", {})          # ordinal -> {"iter": text?, "inv": {label: clause}, ...}
